@@ -1,0 +1,18 @@
+//go:build verif
+// +build verif
+
+// Verification hook (C16): the genesis proposer records as the node's own loaders build them (the VRF
+// public keys travel through hex text and vrf.Hex2VRFPublicKey there). Compiled only with -tags verif.
+package core
+
+import "com.tuntun.rangers/node/src/middleware/types"
+
+// VerifC16GenesisProposers returns the proposer lists of the built-in genesis variants.
+func VerifC16GenesisProposers() map[string][]*types.Miner {
+	return map[string][]*types.Miner{
+		"main":    getGenesisProposer(),
+		"dev":     getDevGenesisProposer(),
+		"dev-one": getDevGenesisOneProposer(),
+		"robin":   getRobinGenesisProposer(),
+	}
+}
